@@ -323,7 +323,7 @@ func (w *World) doStart(t *Task) {
 			mb = mb.AsBatch()
 		}
 		if t.Trigger == "manual_params" {
-			p, _ := types.ReadXObject([]byte(`{"x":"param-x","n":3,"nested":{"a":[1,2]}}`))
+			p, _ := types.ReadXObject([]byte(`{"x":"param-x","n":3,"flag":true,"off":false,"nothing":null,"nested":{"a":[1,2],"ok":true}}`))
 			mb = mb.WithParams(p).WithOrigin("ui")
 			if len(w.Sc.Users) > 0 {
 				if u := sa.Users().Get(w.Sc.Users[0].Email); u != nil {
